@@ -76,8 +76,9 @@ theorem fed_keys_dispatch_like_typed_keys (tbl : List (Seq × Bind)) (n : Nat) (
     fed.1.active = typed.1.active ∧ fed.2.1 = typed.2.1 ∧ fed.2.2.1 = typed.2.2.1 ∧ fed.2.2.2 = typed.2.2.2 ∧
     fed.1.keys.mkeys = typed.1.keys.buf := by
   simp only
-  rw [dispatchKeys_fed tbl n e [] [] false hmk hlt]
-  simp [Eng.asFed]
+  obtain ⟨f', hf'⟩ := dispatchKeys_fed tbl n e [] [] false e.keys.fromMacro hmk hlt
+  rw [Eng.asFed, hf']
+  simp [Eng.asFedF]
 
 -- non-vacuity: recording `C-a`, `x`, `"` (one command each) after `C-x (`, then replay
 example : runLast (recordSession {} [24, 40] [[1], [120], [34]]) = [1, 120, 34] := by
